@@ -380,8 +380,7 @@ def i_STLR(i, fmap):
     fmap[pc] = fmap[pc] + i.length
     address = fmap(i.n)
     if i.pair:
-        if not i.excl:
-            raise InstructionError(i)
+        # (the pair forms STXP/STLXP are always exclusive)
         if internals["endianstate"] == 0:
             data = composer([i.t, i.t2])
         else:
